@@ -122,6 +122,10 @@ pub fn gen_scenario(rng: &mut Rng, prop: &str) -> Scenario {
         // header and question echo must also hold on the TSIG paths
         cfg.keys = gen_keys(rng, &names);
     }
+    if prop == "c04" && rng.chance(1, 6) {
+        // with rate limiting on, only the transport-level clauses are judged (see the driver)
+        cfg.rrl = Some(RrlCfg { noerror: *rng.pick(&[1u32, 2]), nxdomain: 1, error: 1, window: *rng.pick(&[1u32, 2, 15]), slip: rng.range(1, 3), v4_prefix: 24, v6_prefix: 56, size: 1024 });
+    }
     if matches!(prop, "c04" | "c05" | "c07" | "c09") && rng.chance(1, 3) {
         // validly signed requests must be answered like unsigned ones (plus the TSIG record)
         cfg.keys = gen_keys(rng, &names);
@@ -250,7 +254,8 @@ fn gen_request(rng: &mut Rng, sc: &Scenario, prop: &str) -> (Vec<u8>, &'static s
     }
     if rng.chance(1, 6) {
         // a zone with a huge RRset (response larger than 16 KiB over TCP) gets asked for it
-        if let Some(h) = sc.names.iter().find(|n| n.0.first().map_or(false, |l| l.eq_ignore_ascii_case(b"huge"))) {
+        let want: &[u8] = if rng.bool() { b"huge" } else { b"fan" };
+        if let Some(h) = sc.names.iter().find(|n| n.0.first().map_or(false, |l| l.eq_ignore_ascii_case(want))) {
             if let Some(q) = spec.questions.first_mut() {
                 *q = (Some(NameEnc::Plain(h.clone())), if rng.chance(2, 3) { T_MX } else { 255 }, C_IN);
             }
@@ -335,14 +340,25 @@ fn gen_request(rng: &mut Rng, sc: &Scenario, prop: &str) -> (Vec<u8>, &'static s
             2 => o.mac_len = Some(rng.below(40)),
             3 => o.alg_name_override = Some(RName::simple("hmac-md5.sig-alg.reg.int.")),
             4 => {
-                // a 255-octet algorithm name
+                // an algorithm name of 255 octets (the longest valid one) or of 256 (one too long)
                 let mut n = RName::root();
-                for len in [63usize, 63, 63, 61] {
+                for len in [63usize, 63, 63, if rng.bool() { 61 } else { 62 }] {
                     n = n.child(&vec![b'z'; len]);
                 }
                 o.alg_name_override = Some(n);
             }
-            5 => o.key_name_override = Some(RName::simple("unknown-key.")),
+            5 => {
+                o.key_name_override = Some(if rng.chance(1, 3) {
+                    // a key name one octet beyond the limit
+                    let mut n = RName::root();
+                    for len in [63usize, 63, 63, 62] {
+                        n = n.child(&vec![b'k'; len]);
+                    }
+                    n
+                } else {
+                    RName::simple("unknown-key.")
+                })
+            }
             // a valid signature made before a forwarder rewrote the header ID
             6 => o.original_id = Some(rng.u16()),
             _ => {}
@@ -971,6 +987,21 @@ pub fn run(ctx: &Ctx, rep: &mut Report, prop: &str) {
                         Ok(Some(t)) => t,
                         _ => continue,
                     };
+                    if sc.cfg.rrl.is_some() {
+                        // rate limiting may slip or drop the UDP response; what still must hold is
+                        // that the TCP response never has TC set and the UDP response respects its limit
+                        match m02(&t) {
+                            Ok(mt) if mt.header.tc() => rep.violation("c04:tcp-tc", format!("TC set in a TCP response while rate limiting is on (request {})", hex(&req)), wit(&sc, &req, true, &Some(t.clone()))),
+                            _ => {}
+                        }
+                        if let Some(u) = &resp {
+                            if u.len() > udp_limit(&p, sc.cfg.payload) {
+                                rep.violation("c04:over-limit", format!("UDP response of {} octets exceeds the limit (request {})", u.len(), hex(&req)), wit(&sc, &req, false, &resp));
+                            }
+                        }
+                        rep.hist("c04:rrl-scenario");
+                        continue;
+                    }
                     let u = match &resp {
                         Some(u) => u,
                         None => {
